@@ -47,6 +47,13 @@ CLAIMED = {
  'C09': ('proptest-generated diff/grep/blame streams (plain, coloured, moved-line renditions) under narrow/truncating/wrapping/hyperlink option sets; terminal-model line-state oracle',
          'Exploration: at every newline of the output the rendition must be the default one, no OSC 8 hyperlink open, no escape sequence cut, and no control function other than SGR/EL/OSC 8 present.',
          'Trusted: terminal model; input sequences balanced by construction.', '3/C09'),
+
+ 'C15': ('metamorphic: same diff rendered under two syntax themes / two file names of one language / hunk alone vs in context; cell-by-cell comparison via terminal model and tags',
+         'Exploration: switching the syntax theme may change nothing but foregrounds of cells whose element style asks for `syntax`; other cells keep exactly their configured foreground; renaming within a language, the default-language fallback and rendering a hunk alone leave the hunk rows cell-for-cell unchanged.',
+         'Trusted: terminal model, tag attribution, reference style parser; syntect grammars not judged.', '3/C15'),
+ 'C19': ('metamorphic (with/without --hyperlinks) + URL oracle: proptest-generated diffs x link templates x cwd/GIT_PREFIX/relative-paths under two calling-process identities',
+         'Exploration: stripping OSC 8 sequences must give the no-hyperlinks output byte for byte; links are balanced per line; every file link equals the template instantiated with the normalised absolute path of the row\'s section and the displayed number; every commit link equals the commit template instantiated with the linked text.',
+         'Trusted: terminal model, tag attribution; directory rule from the code comments of src/utils/path.rs; remote-derived URLs not covered.', '3/C19'),
 }
 hook_commits = subprocess.check_output(['git','-C','/repo','log','--format=%H','--grep','^verif hook:'],text=True).split()
 checks = []
